@@ -50,6 +50,8 @@ def render(ts):
         k = t["t"]
         if k == "num":
             out.append(render_num(t))
+        elif k == "bad":
+            out.append(t["txt"])
         elif k == "op":
             out.append(t["o"])
         elif k == "lp":
